@@ -88,7 +88,7 @@ func checkC02(c *Ctx) {
 }
 
 func checkC03(c *Ctx) {
-	c.Explanation = "Decides the structure of frame recognition: (R1) the leader helper reads exactly reserved bits (8,6), length (14,10) and type (24,12) of a buffer of at least five bytes and succeeds only for preamble 0xD3, zero reserved bits and non-zero length; (R2) after the start byte the framer appends exactly 4 + (L+6-5) bytes, leaves its loops only by counter or input error, inspects no byte content and pushes nothing back, so a frame is delimited by its own length field alone; (R3) the junk eater stops only on 0xD3 or end of input and returns all it read; junk followed by a start byte is returned without that byte, which is pushed back, so adjacent junk is one message and the frame starts a fresh fetch; (R4) every rejection on the single-frame path is for one of the standard reasons {empty, preamble, reserved bits, zero length, incomplete, CRC} and each of them is present — no valid frame is rejected for another reason; (R5) the conservation rules of C02 hold (a split or merge would breach them)."
+	c.Explanation = "Decides the structure of frame recognition: (R1) the leader helper reads exactly reserved bits (8,6), length (14,10) and type (24,12) of a buffer of at least five bytes and succeeds only for preamble 0xD3, zero reserved bits and non-zero length; (R2) after the start byte the framer appends exactly 4 + (L+6-5) bytes, leaves its loops only by counter or input error, inspects no byte content and pushes nothing back, so a frame is delimited by its own length field alone; (R3) the junk eater stops only on 0xD3 or end of input and returns all it read; junk followed by a start byte is returned without that byte, which is pushed back, so adjacent junk is one message and the frame starts a fresh fetch; (R4) every rejection on the single-frame path is for one of the standard reasons {empty, preamble, reserved bits, zero length, incomplete, CRC} and each of them is present — no valid frame is rejected for another reason; (R5) the conservation rules of C02 hold (a split or merge would breach them); (R6) nothing reachable from the stream handler can panic on any input (the C07 obligations restricted to that root), so no frame makes the handler abandon the frames after it."
 	c.NotDecided = "the bit reader's arithmetic (C14) and the CRC arithmetic (dependency pin, C01); numerical equality of delivered segments with inputs is implied by conservation + delimiting, not replayed."
 	f := newFraming(c, "C03-anchor")
 	if f == nil {
@@ -101,6 +101,14 @@ func checkC03(c *Ctx) {
 	f.ruleFetcherExits("C03-R3")
 	f.ruleRejectionSites("C03-R4")
 	f.ruleStreamForward("C03-R5")
+	// R6: recognising a frame cannot abort the stream: the no-panic obligations (C07 engine) of
+	// everything reachable from the stream handler, which includes the single-frame decoder
+	if hm := c.P.Func("rtcm/handler", "(*Handler).HandleMessages"); hm != nil {
+		runBounds(c, "C03-R6", []*ssa.Function{hm})
+		c.MinInstances("C03-R6", 50)
+	} else {
+		c.Unresolved("C03-R6", "rtcm/handler.(*Handler).HandleMessages")
+	}
 	c.MinInstances("C03-R1", 6)
 	c.MinInstances("C03-R2", 3)
 	c.MinInstances("C03-R3", 8)
